@@ -25,7 +25,13 @@ func c18Bases(seed int64, thorough bool) []*e2eCase {
 	}
 	mk(true, false, 4, []int64{30000, 2000}, 4096)
 	mk(false, true, 3, []int64{30000}, 4096)
+	// compression left at auto and a second file big enough (>= 128 KiB) for the compress-flag line:
+	// a pause between the files, before the flag
+	mk(true, false, 4, []int64{3000, 300000}, 1<<20)
+	res[len(res)-1].Opts.Compress = 0
 	if thorough {
+		mk(false, true, 3, []int64{2000, 200000}, 1<<20)
+		res[len(res)-1].Opts.Compress = 0
 		mk(false, false, 4, []int64{2000, 30000}, 4096)
 		mk(true, true, 3, []int64{30000}, 4096)
 		mk(true, true, 4, []int64{600000}, 10<<20) // pause inside the buffer-size probing phase
